@@ -191,6 +191,24 @@ class SessGen(object):
                 b[p] ^= 1 << r.randrange(8)
         elif kind == "trailing":
             b += bytes(r.randrange(256) for _ in range(self.ch([1, 8, 24])))
+        elif kind == "cutvalue":
+            # cut the frame INSIDE the value of a primitive and make every enclosing structure consistent with
+            # the shorter extent: all lengths are honest except that primitive's, whose declared bytes are not
+            # there.  Ground truth: such a frame cannot be decoded.
+            prims = [e for e in inner if e["type"] != 1 and e["len"] > 0 and 2 <= e["type"] <= 10]
+            strings = [e for e in prims if e["type"] in (7, 8, 4)]
+            if strings and r.random() < 0.7:
+                prims = strings
+            if prims:
+                e = self.ch(prims)
+                keep = r.randrange(0, e["len"])
+                if e["len"] >= 16 and r.random() < 0.6:
+                    keep = (keep // 8) * 8          # keep the remainder 8-aligned: only the length gives it away
+                cut = e["off"] + 8 + keep
+                b = b[:cut]
+                for a in idx:
+                    if a["type"] == 1 and a["off"] < e["off"] < a["end"]:
+                        b[a["off"] + 4:a["off"] + 8] = (cut - a["off"] - 8).to_bytes(4, "big")
         elif kind == "textlen":
             ts = [e for e in inner if e["type"] in (7, 8)]
             if ts:
